@@ -811,7 +811,10 @@ fn mutate_fields(t: &mut Tape, f: &mut Vec<(String, String)>, request: bool) -> 
             if request {
                 f.insert(0, (":status".into(), "200".into()));
             } else {
-                f.insert(0, (":path".into(), "/".into()));
+                // any of the five request pseudo-header fields
+                let (n, v) = *t.pick(&[(":path", "/"), (":method", "GET"), (":scheme", "https"), (":authority", "example.com"), (":protocol", "websocket")]);
+                let at = t.below(f.iter().filter(|x| x.0.starts_with(':')).count() + 1);
+                f.insert(at, (n.into(), v.into()));
             }
             "wrong-direction-pseudo"
         }
